@@ -77,6 +77,7 @@ type Exec struct {
 	cfg       map[string]string
 	freshN    int
 	lenient   bool
+	headCache map[[2]interface{}]*ssa.BasicBlock
 	feasCache map[string]bool
 	feasHits  int
 	lightCache map[[2]interface{}]bool
@@ -88,7 +89,7 @@ type Exec struct {
 func NewExec(prog *ssa.Program) *Exec {
 	return &Exec{prog: prog, unroll: 8, nextObj: 1, globals: map[*ssa.Global]int{}, globalTy: map[int]types.Type{}, globalNm: map[int]string{},
 		pdomCache: map[*ssa.Function][]*ssa.BasicBlock{}, funcsSeen: map[string]bool{}, stubsUsed: map[string]bool{},
-		nondets: map[string]*Term{}, feasCache: map[string]bool{}, lightCache: map[[2]interface{}]bool{}, nondetTy: map[string]string{}, maxSteps: 3_000_000, cfg: map[string]string{}}
+		nondets: map[string]*Term{}, headCache: map[[2]interface{}]*ssa.BasicBlock{}, feasCache: map[string]bool{}, lightCache: map[[2]interface{}]bool{}, nondetTy: map[string]string{}, maxSteps: 3_000_000, cfg: map[string]string{}}
 }
 
 func (e *Exec) fresh(prefix string, s Sort) *Term {
@@ -400,7 +401,9 @@ func (e *Exec) run(st *State, blk *ssa.BasicBlock, idx int, stops []*ssa.BasicBl
 			if fr.Visits == nil {
 				fr.Visits = map[int]int{}
 			}
-			fr.Visits[blk.Index]++
+			if e.loopControl(fr.Fn, blk) {
+				fr.Visits[blk.Index]++
+			}
 			if fr.Visits[blk.Index] > e.unroll {
 				kind := "unwind"
 				if e.conc != nil || e.cfg["unwind"] == "assume" {
@@ -425,6 +428,15 @@ func (e *Exec) run(st *State, blk *ssa.BasicBlock, idx int, stops []*ssa.BasicBl
 			} else {
 				inner = stops
 			}
+			// additionally join at the head of the innermost enclosing loop: paths that go round the loop are
+			// merged there instead of being continued separately (keeps loops with early exits linear)
+			H := e.loopHead(fr.Fn, blk)
+			if e.noMerge || H == J || inStops(H, inner) {
+				H = nil
+			}
+			if H != nil {
+				inner = append(append([]*ssa.BasicBlock(nil), inner...), H)
+			}
 			var outs []Outcome
 			for k, s := range []*State{sT, sF} {
 				succ := blk.Succs[k]
@@ -433,6 +445,20 @@ func (e *Exec) run(st *State, blk *ssa.BasicBlock, idx int, stops []*ssa.BasicBl
 					outs = append(outs, Outcome{st: s, kind: oStop, at: succ})
 				} else {
 					outs = append(outs, e.run(s, succ, firstNonPhi(succ), inner)...)
+				}
+			}
+			if H != nil {
+				var atH, rest []Outcome
+				for _, o := range outs {
+					if o.kind == oStop && o.at == H {
+						atH = append(atH, o)
+					} else {
+						rest = append(rest, o)
+					}
+				}
+				outs = rest
+				for _, m := range e.mergeOutcomes(atH, base) {
+					outs = append(outs, e.run(m.st, H, firstNonPhi(H), stops)...)
 				}
 			}
 			if J == nil {
@@ -645,9 +671,10 @@ func (e *Exec) callValue(st *State, fv Value, args []Value, byDefer bool, site s
 }
 
 type callTarget struct {
-	fn   Value
-	args []Value
-	nilp bool
+	fn      Value
+	args    []Value
+	nilp    bool
+	nilCond *Term // the interface receiver is nil under this condition (possibly-nil interface)
 }
 
 func (e *Exec) resolveCall(st *State, fr *Frame, c *ssa.CallCommon) callTarget {
@@ -660,6 +687,13 @@ func (e *Exec) resolveCall(st *State, fr *Frame, c *ssa.CallCommon) callTarget {
 		if recv.T == nil {
 			return callTarget{nilp: true}
 		}
+		var nilCond *Term
+		if recv.NilIf != nil && !recv.NilIf.IsFalse() {
+			if recv.NilIf.IsTrue() {
+				return callTarget{nilp: true}
+			}
+			nilCond = recv.NilIf
+		}
 		if so, ok := recv.V.(*StubObj); ok {
 			_ = so
 		}
@@ -671,7 +705,7 @@ func (e *Exec) resolveCall(st *State, fr *Frame, c *ssa.CallCommon) callTarget {
 		for _, a := range c.Args {
 			args = append(args, e.eval(st, fr, a))
 		}
-		return callTarget{fn: &Func{Fn: m}, args: args}
+		return callTarget{fn: &Func{Fn: m}, args: args, nilCond: nilCond}
 	}
 	fv := e.eval(st, fr, c.Value)
 	for _, a := range c.Args {
@@ -922,5 +956,79 @@ func (e *Exec) lightRegion(fn *ssa.Function, blk *ssa.BasicBlock) bool {
 		}
 	}
 	e.lightCache[key] = res
+	return res
+}
+
+// loopControl: the symbolic branch at the end of blk decides whether a loop continues, i.e. exactly one of its
+// successors can reach blk again. (Branches inside a loop body are bounded by the loop's own controlling branch.)
+func (e *Exec) loopControl(fn *ssa.Function, blk *ssa.BasicBlock) bool {
+	key := [2]interface{}{fn, -1 - blk.Index}
+	if v, ok := e.lightCache[key]; ok {
+		return v
+	}
+	reaches := func(from *ssa.BasicBlock) bool {
+		seen := map[int]bool{}
+		stack := []*ssa.BasicBlock{from}
+		for len(stack) > 0 {
+			b := stack[len(stack)-1]
+			stack = stack[:len(stack)-1]
+			if b == blk {
+				return true
+			}
+			if seen[b.Index] {
+				continue
+			}
+			seen[b.Index] = true
+			stack = append(stack, b.Succs...)
+		}
+		return false
+	}
+	n := 0
+	for _, s := range blk.Succs {
+		if reaches(s) {
+			n++
+		}
+	}
+	res := n == 1
+	if n == 2 {
+		// both successors return here: either a body-internal branch of an enclosing loop (bounded by that loop's
+		// controlling branch) or a loop without exit (e.g. for { select }) which is bounded elsewhere
+		res = false
+	}
+	e.lightCache[key] = res
+	return res
+}
+
+// loopHead returns the header of the innermost loop that contains blk (other than blk itself), or nil.
+func (e *Exec) loopHead(fn *ssa.Function, blk *ssa.BasicBlock) *ssa.BasicBlock {
+	key := [2]interface{}{fn, 1000000 + blk.Index}
+	if v, ok := e.headCache[key]; ok {
+		return v
+	}
+	var res *ssa.BasicBlock
+	for d := blk.Idom(); d != nil; d = d.Idom() {
+		// d dominates blk; is d reachable from blk (a cycle through d)?
+		seen := map[int]bool{}
+		stack := append([]*ssa.BasicBlock(nil), blk.Succs...)
+		found := false
+		for len(stack) > 0 && !found {
+			b := stack[len(stack)-1]
+			stack = stack[:len(stack)-1]
+			if b == d {
+				found = true
+				break
+			}
+			if seen[b.Index] {
+				continue
+			}
+			seen[b.Index] = true
+			stack = append(stack, b.Succs...)
+		}
+		if found {
+			res = d
+			break
+		}
+	}
+	e.headCache[key] = res
 	return res
 }
